@@ -220,7 +220,11 @@ func runContainers(r *core.Run, prop string) {
 					continue
 				}
 				pairs++
-				diff := sameFlat(ref.f, c.f, map[string]bool{"ImageType": true})
+				ign := map[string]bool{"ImageType": true}
+				for k := range it.Skip { // fields the record leaves undetermined (see expectedExif)
+					ign[k] = true
+				}
+				diff := sameFlat(ref.f, c.f, ign)
 				if len(diff) > 0 && len(diffFlat(c.f, zeroExp, map[string]bool{"ImageType": true})) == 0 {
 					r.Violate("container:"+tag+":nothing-decoded", fmt.Sprintf("%s (%s): no field at all is reported although the bare TIFF with the same payload reports %v", tag, bo, diff),
 						map[string]interface{}{"ops": []core.Op{ops[ref.op], ops[c.op]}, "observed": []core.Obs{obs[ref.op], obs[c.op]}, "case": describeExifCase(it)})
